@@ -33,7 +33,7 @@ def gen_kill_trace(rng, length=40):
         elif x < 0.40:
             a = rng.choice(w.hosts)                                    # a replica that never was a member (join after removal)
             s = rng.choice(sorted(w.hist))
-            zombies.setdefault(a, []).append((s, rng.randint(900, 903), rng.choice([0, 1, w.hist[s][-1][0], w.hist[s][-1][0] + 1])))
+            zombies.setdefault(a, []).append((s, rng.choice([900, 901, 902, 903, 100900, 200900, 900 + (1 << 32)]), rng.choice([0, 1, w.hist[s][-1][0], w.hist[s][-1][0] + 1])))
             continue
         elif x < 0.50:
             a = rng.choice(w.hosts)
@@ -144,6 +144,55 @@ def mon_c11(ops, obs, eng):
     return out
 
 
+# ------------------------------------------------------------------ scheduler half: KILL requests of a round = the kill list
+def sched_kill_contexts(ck, ttl, step, n):
+    """scheduler contexts (sched engine) with non-empty kill lists: random 1..4-shard contexts, and directed ones where the
+    SAME round also restores / repairs the stray's shard, several strays sit on one NodeHost, and ids collide under the
+    truncations code tends to apply to ids (modulo 100000 as in log output, 32 / 16 bit)"""
+    import schedengine as se
+    rng = ck.rng
+    out = []
+    for _ in range(n):
+        c = se.gen_random_ctx(rng, ttl, step)
+        hosts = [h["addr"] for h in c["hosts"]] or [11]
+        sids = [x["id"] for x in c["view"]] or [1]
+        kill = []
+        mode = rng.random()
+        if mode < 0.35:                       # strays of shards that are being restored / repaired in this very round
+            for _k in range(rng.randint(1, 3)):
+                kill.append((rng.choice(sids), rng.randint(70, 75), rng.choice(hosts)))
+        elif mode < 0.7:                      # several strays on one NodeHost, ids congruent modulo 100000 / 2^32 / 2^16
+            a = rng.choice(hosts)
+            sb, rb = rng.choice(sids), rng.randint(70, 75)
+            stride = rng.choice([100000, 100000, 1 << 32, 65536])
+            kill = [(sb, rb, a), (sb + stride, rb, a)]
+            if rng.random() < 0.5:
+                kill.append((sb, rb + stride, a))
+            if rng.random() < 0.3:
+                kill.append((sb + stride, rb + stride, rng.choice(hosts)))
+        else:
+            for _k in range(rng.randint(1, 4)):
+                kill.append((rng.randint(1, 6), rng.randint(1, 99), rng.choice(hosts + [77])))
+        rng.shuffle(kill)
+        c["kill"] = kill
+        c["tag"] = "kill:" + c["tag"]
+        out.append(c)
+    return out
+
+
+def sched_kill_part(ck, proofs_ok):
+    import schedengine as se
+    eng = se.Engine(ck)
+    if not eng.build():
+        return
+    ctxs = [c for c in se.load_corpus("C02") if c["kill"]] + sched_kill_contexts(ck, eng.ttl, eng.step, 600 if ck.tier == "quick" else 20000)
+
+    def monitor(v, reqs, c):
+        return se.mon_c11(v, reqs), []
+    se.run_property(ck, eng, ctxs, monitor, proofs_ok, {})
+    ck.cov["sched_kill_contexts"] = len(ctxs)
+
+
 def nontrivial(ops, obs):
     # at least one kill entry observed and at least one later context without it
     had, gone = set(), False
@@ -165,8 +214,10 @@ def run(ck):
                       "members are reported with versions older / equal / newer than the view; strays are placed first, last or between legitimate "
                       "(possibly lagging) members in a report; hosts stop listing a stray at random points; the replicated kill list is read after "
                       "every event. Plus the view profile of C04/C05 (stale legitimate members). Non-trivial = some kill entry appears and later "
-                      "disappears; distinct by md5 of the trace.")
-    ok = ck.proofs(["theories/DBRun.vo"])
+                      "disappears; distinct by md5 of the trace. SCHEDULER half: scheduler contexts with non-empty kill lists (strays of shards restored / repaired in "
+                      "the same round, several strays on one NodeHost, ids congruent modulo 100000 / 2^32 / 2^16) through the real "
+                      "Drummer.maintainShards: the KILL requests of the round must be exactly the kill list (C11_sched_kills_exact).")
+    ok = ck.proofs(["theories/DBRun.vo", "theories/SchedRun.vo", "props/C02.vo"])     # C11_sched_kills_exact lives in props/C02.v
     eng = dbengine.Engine(ck)
     eng.sort_ls = True
     if not eng.build():
@@ -181,6 +232,8 @@ def run(ck):
     # batches of 1000 traces keep each generated .v file small (a single 18000-trace batch got a coqc killed for memory)
     total = dict(traces_validated_against_impl=0, ops_total=0, panic_observations=0)
     hist = {}
+    ncorp = len(dbprops.load_corpus("C11"))
+    traces = traces[:ncorp] + [dbgen.with_lag(ck.rng, t, 0.3) for t in traces[ncorp:]]    # the kill list of a follower that catches up by snapshot
     for lo in range(0, len(traces), 1000):
         dbprops.run_db_property(ck, eng, traces[lo:lo + 1000], [mon_c11], with_replicas=False, nontrivial=nontrivial)
         for k in total:
@@ -192,3 +245,5 @@ def run(ck):
     ck.cov.update(total)
     ck.cov["op_histogram"] = hist
     ck.sample({"trace": dbengine.trace_to_json(traces[1][:10])})
+    if not ck.violations:
+        sched_kill_part(ck, ok)
